@@ -264,4 +264,19 @@ example : (run {} exHistory).lists.assembled.Nodup ∧
 example : (written (write (run {} exHistory)).1).toOption = (written (run {} exHistory)).toOption ∧
     (written (run {} exHistory)).toOption.isSome = true := by decide +kernel
 
+/-- a mesh that was never assembled is its own `clear` (hypothesis of `T_C12_clear_fresh`) -/
+example : clear (run {} (exHistory.take 4)) = run {} (exHistory.take 4) := by decide +kernel
+
+/-- hypothesis of `T_C12_aligned` / `T_C12_backport_unmoved`: the depot of the example history is well formed … -/
+example : DepotWF (run {} exHistory).depot :=
+  (T_C12_history exHistory (by simp [exHistory, Legal, step, add, exOp])).1
+
+/-- … and the re-assembled mesh is still assembled after quiet calls -/
+example : isAssembled (run (RT (run {} exHistory)) [.modify "inlet" "cyclic" (some ["k v"]), .write]) = true := by
+  decide +kernel
+
+/-- hypotheses of `T_C12_backport_single_move`: aligned (by `T_C12_aligned`) and with vertices -/
+example : Aligned (RT (run {} exHistory)) ∧ (RT (run {} exHistory)).lists.verts ≠ [] :=
+  ⟨T_C12_aligned _ (T_C12_history exHistory (by simp [exHistory, Legal, step, add, exOp])).1, by decide +kernel⟩
+
 end CBV.C12
